@@ -176,6 +176,23 @@ static CaseFn mk_c19geo(const Args &) {
             for (auto &f : F) { std::vector<VertexHandle> t{v4[f[0]], v4[f[1]], v4[f[2]]}; auto hf = m.find_halfface(t); if (!hf.is_valid()) hf = m.halfface_handle(m.add_face(t), 0); if (m.incident_cell(hf).is_valid()) ok = false; hfs.push_back(hf); }
             if (ok) m.add_cell(hfs);
         }
+        // cells whose vertices lie in different numbers of faces: pyramids, prisms, a wedge over a pentagon
+        int nother = (int)rng.below(3);
+        for (int c = 0; c < nother; ++c) {
+            rng.shuffle(vs);
+            static const std::vector<std::vector<std::vector<int>>> SH = {
+                {{0, 3, 2, 1}, {0, 1, 4}, {1, 2, 4}, {2, 3, 4}, {3, 0, 4}},                       // square pyramid
+                {{0, 2, 1}, {3, 4, 5}, {0, 1, 4, 3}, {1, 2, 5, 4}, {2, 0, 3, 5}},                 // prism
+                {{0, 4, 3, 2, 1}, {0, 1, 5}, {1, 2, 5}, {2, 3, 5}, {3, 4, 5}, {4, 0, 5}},         // pentagonal pyramid
+                {{0, 1, 2}, {0, 2, 3}, {0, 3, 4}, {0, 4, 1}, {5, 2, 1}, {5, 3, 2}, {5, 4, 3}, {5, 1, 4}}};  // octahedron
+            const auto &sh = SH[rng.below(SH.size())];
+            int need = 0; for (auto &f : sh) for (int x : f) need = std::max(need, x + 1);
+            if (need > nv) continue;
+            std::vector<HalfFaceHandle> hfs; bool ok = true;
+            for (auto &f : sh) { std::vector<VertexHandle> t; for (int x : f) t.emplace_back(vs[x]); auto hf = m.find_halfface(t); if (!hf.is_valid()) hf = m.halfface_handle(m.add_face(t), 0);
+                if (m.incident_cell(hf).is_valid()) ok = false; hfs.push_back(hf); }
+            if (ok) { m.add_cell(hfs); ctx.cnt.add("geo.cells.non-simplicial"); }
+        }
         int nfree = 1 + (int)rng.below(4);
         for (int f = 0; f < nfree; ++f) { rng.shuffle(vs); int k = 3 + (int)rng.below(4); std::vector<VertexHandle> t; for (int i = 0; i < k && i < nv; ++i) t.emplace_back(vs[i]); m.add_face(t); }
         Scan s; s.build(m);
